@@ -293,9 +293,6 @@ func (c *FnCtx) callFunc(st *State, fn *types.Func, sig *types.Signature, recv *
 	if sig.Results().Len() == 1 {
 		resT = sig.Results().At(0).Type()
 	}
-	if fs, ok := c.eng.contracts.Funcs[key]; ok && !(c.inlineDepth == 0 && false) {
-		return c.callByContract(st, fs, sig, recv, args, call.Pos(), key)
-	}
 	// call-site obligations attached by the contract of the function being verified
 	if c.spec != nil && c.inlineDepth == 0 {
 		for _, cp := range c.spec.CallPre {
@@ -322,6 +319,9 @@ func (c *FnCtx) callFunc(st *State, fn *types.Func, sig *types.Signature, recv *
 			}
 			c.obligeNamed(st, "callpre", oname, sc.boolOf(cp.Expr), "at the call of "+fn.Name()+": "+cp.Src, call.Pos())
 		}
+	}
+	if fs, ok := c.eng.contracts.Funcs[key]; ok && !(c.inlineDepth == 0 && false) {
+		return c.callByContract(st, fs, sig, recv, args, call.Pos(), key)
 	}
 	if h, ok := externs[fn.FullName()]; ok {
 		c.trusted["external contract: "+fn.FullName()] = true
